@@ -480,6 +480,53 @@ class World(object):
                 wellformed(o.ix, "after %s: index #%d (made by %s)" % (op["op"], n, o.born), o.born)
         elif self.mode == "C15":
             self.equality_checks(op)
+        elif self.mode == "C10":
+            self.indx_roundtrips(op)
+
+    def indx_roundtrips(self, op):
+        """C10 over machine-made indexes: save -> load is the identity for every non-negative live index."""
+        np = _np()
+        from catii import iindex
+        from catii.indxio import IndxIO
+
+        from . import indxgen
+        from .props import c10
+
+        path = os.path.join(indxgen.scratch_dir(), "machine10.indx")
+        for n, o in enumerate(self.objs):
+            ix = o.ix
+            if ix.common < 0 or any(k[0] < 0 for k in ix):
+                continue
+            if getattr(o, "saved", None) == snapshot_index(ix):
+                continue
+            case = {"common": ix.common, "arity": ix.ndim,
+                    "entries": [[list(k), v.tolist()] for k, v in ix.items()]}
+            with libcall("IndxIO.save(index #%d made by %s)" % (n, o.born)):
+                with open(path, "wb") as f:
+                    IndxIO.save(f, dict(ix), ix.common, np.dtype(np.uint32))
+            with open(path, "rb") as f:
+                with libcall("IndxIO.load"):
+                    loaded = IndxIO.load(f)
+                c10.compare_loaded(case, loaded, "load(save(index made by %s))" % o.born)
+                entries, common, _ = loaded
+                rebuilt = iindex({k: np.array(v) for k, v in entries.items()}, common, ix.shape)
+                del loaded, entries
+            if not (rebuilt == ix):
+                raise Violation("index made by %s: rebuilt from its INDX file it is != the saved one" % o.born,
+                                sig="reloaded index differs")
+            try:
+                rebuilt.validate()
+            except ValueError as e:
+                try:
+                    ix.validate()
+                except ValueError:
+                    pass
+                else:
+                    raise Violation("reloaded index fails validate(): %s" % e, sig="reloaded index invalid")
+            o.saved = snapshot_index(ix)
+            self.flags.add("roundtrip of an index made by " + o.born)
+            if self.rec is not None:
+                self.rec.count("indx_roundtrips", 1)
 
     def equality_checks(self, op):
         np = _np()
@@ -901,7 +948,9 @@ def make_machine(mode, rec, tier):
 def nontrivial_history(mode, w, case, rec):
     pats = {"append after shift", "update after append", "reindex with a merge",
             "collapse with an omitted present value"}
-    if mode == "C15":
+    if mode == "C10":
+        ok = any(f.startswith("roundtrip of an index made by ") and not f.endswith(" new") for f in w.flags)
+    elif mode == "C15":
         ok = bool(w.flags & {"equal content reached by different histories", "equal keys but different row ids",
                              "normalisation checked"}) and w.mutations >= 1
     else:
